@@ -623,6 +623,13 @@ def flushFailed (σ : Sess) : Sess :=
       | (σ, some _) => markNondetIf true σ
       | (σ, none) => updTxn σ (fun t => { t with rbexc := true })
 
+/-- the `try: flush_context.execute() ... except: transaction.rollback(_capture_exception=True)`
+    of `_flush` -/
+def flushCore (σ : Sess) (proc dels : List Oid) : R :=
+  match flushExecute σ proc dels with
+  | (σ, none) => ok σ
+  | (σ, some e) => fail (flushFailed σ) e
+
 /-- `Session.flush()` -/
 def flush (σ : Sess) : R :=
   if isClean σ then ok σ else
@@ -633,10 +640,7 @@ def flush (σ : Sess) : R :=
   if (proc ++ dels).any (fun o => !(σ.new.contains o || imContainsState σ o)) then fail σ .assertion else
   if proc.isEmpty && dels.isEmpty then ok σ else
   -- `self._autobegin_t()._begin()`: declared ACTIVE-only
-  (requireActive σ).bind fun σ =>
-  match flushExecute σ proc dels with
-  | (σ, none) => ok σ
-  | (σ, some e) => fail (flushFailed σ) e
+  (requireActive σ).bind fun σ => flushCore σ proc dels
 
 /-- `Session._autoflush()` (autoflush=True) -/
 def autoflush (σ : Sess) : R := flush σ
